@@ -70,6 +70,13 @@ def hasRepeatedDefined : List (Nat × Nat) → Bool
   | [] => false
   | (id, _) :: r => (definedSettings.contains id && r.any (·.1 == id)) || hasRepeatedDefined r
 
+/-- settings whose value MUST be 0 or 1 and for which any other value is an error of the SETTINGS payload: RFC 9297
+    §2.1.1 (SETTINGS_H3_DATAGRAM: H3_SETTINGS_ERROR by name), RFC 8441 §3 / RFC 9220 (SETTINGS_ENABLE_CONNECT_PROTOCOL);
+    C13's reading R-13b, finding D-13b -/
+def boolSettings : List Nat := [0x8, 0x33]
+
+def hasBadBool (ps : List (Nat × Nat)) : Bool := ps.any (fun e => boolSettings.contains e.1 && decide (1 < e.2))
+
 /-- what one complete frame of type `ty` with payload `p` is, RFC 9114 §7.2 -/
 def classify (ty : Nat) (p : Bytes) : Tok :=
   if ty = 0x1 then .frame (.headers p)
@@ -78,7 +85,7 @@ def classify (ty : Nat) (p : Bytes) : Tok :=
     (match pairs (p.length + 1) p with
      | none => .badSettings
      | some ps =>
-       if ps.any (fun e => h2Settings.contains e.1) || hasRepeatedDefined ps then .badSettings
+       if ps.any (fun e => h2Settings.contains e.1) || hasRepeatedDefined ps || hasBadBool ps then .badSettings
        else .okSettings)
   else if ty = 0x5 then (match rfcDecode p with | some (id, rest) => .frame (.pushPromise id rest) | none => .malformed)
   else if ty = 0x7 then (match exactlyOneVarint p with | some v => .frame (.goaway v) | none => .malformed)
